@@ -482,6 +482,10 @@ def flood_region(pix, w, h, rect, seed, border):
 #   ['mr', dx, dy, b, nn]         M+dx,dy / M-dx,dy   (relative)
 #   ['ma', x, y, b, nn]           Mx,y                (absolute)
 #   ['X', [commands]]             substring, executed in place
+#   ['B'] / ['N']                 prefix given on its own: stays pending until the next move command,
+#                                 whatever non-move commands (S, C, A 0, TA 0, move-free substrings,
+#                                 blanks, ';') come in between
+#   ['A', 0] / ['TA', 0]          angle zero: no turning, no effect on the pen
 # b = B prefix (move without drawing), nn = N prefix (return to the start of the move)
 
 DIRS = {'U': (0, -1), 'D': (0, 1), 'L': (-1, 0), 'R': (1, 0), 'E': (1, -1), 'F': (1, 1), 'G': (-1, 1), 'H': (-1, -1)}
@@ -500,7 +504,10 @@ def pen_run(cmds, start, scale=4, colour=None):
     """
     pos = [start[0], start[1]]
     segs = []
-    state = {'scale': scale, 'colour': colour}
+    state = {'scale': scale, 'colour': colour, 'b': False, 'n': False}
+
+    def has_move(cs):
+        return any(c[0] in ('mv', 'mr', 'ma') or (c[0] == 'X' and has_move(c[1])) for c in cs)
 
     def run(cs):
         for c in cs:
@@ -509,7 +516,16 @@ def pen_run(cmds, start, scale=4, colour=None):
                 state['scale'] = c[1]
             elif op == 'C':
                 state['colour'] = c[1]
+            elif op == 'B':
+                state['b'] = True
+            elif op == 'N':
+                state['n'] = True
+            elif op in ('A', 'TA'):
+                if c[1] != 0:
+                    raise ValueError('turning is outside the model')
             elif op == 'X':
+                if (state['b'] or state['n']) and has_move(c[1]):
+                    raise ValueError('a pending prefix in front of a substring with moves is not pinned')
                 run(c[1])
             else:
                 if op == 'mv':
@@ -524,7 +540,8 @@ def pen_run(cmds, start, scale=4, colour=None):
                     tx, ty = c[1], c[2]
                 else:
                     raise ValueError(op)
-                b, nn = c[-2], c[-1]
+                b, nn = c[-2] or state['b'], c[-1] or state['n']
+                state['b'] = state['n'] = False
                 if not b:
                     segs.append((pos[0], pos[1], tx, ty, state['colour']))
                 if not nn:
